@@ -109,7 +109,7 @@ BodyStep == /\ Len(stack) > 0 /\ Top.k = "body" /\ Top.pc <= Len(progs[Top.h].op
             /\ LET op == progs[Top.h].ops[Top.pc]
                    adv == [stack EXCEPT ![Len(stack)].pc = @ + 1]
                IN CASE op = "W" -> /\ status' = IF status = 0 THEN 200 + Top.h ELSE status
-                                   /\ stack' = adv /\ ev' = Append(ev, [e |-> "write", h |-> Top.h, code |-> 200 + Top.h])
+                                   /\ stack' = adv /\ ev' = Append(ev, [e |-> "write", h |-> Top.h, code |-> 200 + Top.h, b |-> ""])
                                    /\ UNCHANGED <<progs, index, body, cancelled, rh>>
                     [] op = "R" -> /\ rh' = TRUE
                                    /\ stack' = adv /\ ev' = Append(ev, E1("setrh", Top.h))
